@@ -160,8 +160,8 @@ def quads_stream_frames(
 
     """
     stream.enroll()
-    if stream.options.params.namespace_declarations:
-        namespace_declarations(data, stream)  # type: ignore[arg-type]
+    if isinstance(data, Graph) and stream.options.params.namespace_declarations:
+        namespace_declarations(data, stream)
     iterator: Generator[Quad, None, None]
     if isinstance(data, Dataset):
         iterator = cast(Generator[Quad, None, None], data.quads())
@@ -198,8 +198,8 @@ def graphs_stream_frames(
 
     """
     stream.enroll()
-    if stream.options.params.namespace_declarations:
-        namespace_declarations(data, stream)  # type: ignore[arg-type]
+    if isinstance(data, Graph) and stream.options.params.namespace_declarations:
+        namespace_declarations(data, stream)
 
     if isinstance(data, Dataset):
         graphs = data.graphs()
